@@ -52,6 +52,9 @@ type Conn struct {
 	// Fail: the origin of the exchange in flight cannot be reached, so the
 	// response the exchange receives is the proxy's own 502.
 	Fail bool `json:"fail,omitempty"`
+	// Connect (with Fail, point reqmod, no MITM): the exchange in flight is a
+	// CONNECT to a target that cannot be dialled.
+	Connect bool `json:"connect,omitempty"`
 }
 
 // Case is 1..3 connections, the order in which parked exchanges are released
@@ -204,6 +207,9 @@ func request(id string) string {
 	host := "origin.test"
 	if strings.Contains(id, "-fail") {
 		host = "down.test"
+	}
+	if strings.HasSuffix(id, "-cfail") {
+		return fmt.Sprintf("CONNECT down.test:443 HTTP/1.1\r\nHost: down.test:443\r\nX-Verif-Id: %s\r\n\r\n", id)
 	}
 	return fmt.Sprintf("GET http://%s/%s HTTP/1.1\r\nHost: %s\r\nX-Verif-Id: %s\r\n\r\n", host, id, host, id)
 }
@@ -440,6 +446,9 @@ func runOnce(c Case, T time.Duration) (v kit.Verdict) {
 			}
 			if cn.Fail && (cn.Point == "reqmod" || cn.Point == "roundtrip") {
 				k.id = fmt.Sprintf("x%d-fail", i)
+				if cn.Connect && cn.Point == "reqmod" && !needMITM {
+					k.id = fmt.Sprintf("x%d-cfail", i)
+				}
 			}
 			if cn.Point == "writing" {
 				k.id = fmt.Sprintf("big-%d", i)
@@ -555,6 +564,9 @@ func runOnce(c Case, T time.Duration) (v kit.Verdict) {
 		if k.point == "uploading" {
 			method = "POST"
 		}
+		if strings.HasSuffix(k.id, "-cfail") {
+			method = "CONNECT"
+		}
 		res, _, err := k.cl.ReadResponse(method, T)
 		k.res, k.resErr = res, err
 		if c.ShortTimeout {
@@ -564,6 +576,9 @@ func runOnce(c Case, T time.Duration) (v kit.Verdict) {
 		pre := "C07/exchange/" + k.point + "/"
 		if strings.HasSuffix(k.id, "-fail") {
 			pre = "C07/exchange-with-failing-round-trip/" + k.point + "/"
+		}
+		if strings.HasSuffix(k.id, "-cfail") {
+			pre = "C07/connect-to-unreachable-target/" + k.point + "/"
 		}
 		if c.Shaped {
 			pre = "C07/exchange-on-shaped-listener/" + k.point + "/"
@@ -582,7 +597,7 @@ func runOnce(c Case, T time.Duration) (v kit.Verdict) {
 			}
 			v.Addf(pre+class, "connection %d (%s): body ended after %d of %d bytes: %v", idx, k.point, len(res.Body), len(bodyFor(k.id)), res.BodyErr)
 		default:
-			if strings.HasSuffix(k.id, "-fail") {
+			if strings.HasSuffix(k.id, "-fail") || strings.HasSuffix(k.id, "-cfail") {
 				if res.Status != 502 {
 					v.Addf(pre+"wrong-response", "connection %d (%s): the origin is unreachable, status %d", idx, k.point, res.Status)
 				}
@@ -722,6 +737,7 @@ func genCase(t *rapid.T) Case {
 			cn.Size = rapid.SampledFrom([]int{0, 0, 4000, 5000, 70000, 300000}).Draw(t, "size")
 			if (pt == "reqmod" || pt == "roundtrip") && rapid.IntRange(0, 3).Draw(t, "fail") == 0 {
 				cn.Fail, cn.Size = true, 0
+				cn.Connect = pt == "reqmod" && rapid.Bool().Draw(t, "connect_fail")
 			}
 		}
 		c.Conns = append(c.Conns, cn)
@@ -814,6 +830,9 @@ func classes(c Case) []string {
 	for _, cn := range c.Conns {
 		if cn.Fail {
 			set["in-flight-round-trip-fails"] = true
+		}
+		if cn.Connect {
+			set["in-flight-connect-fails"] = true
 		}
 		if cn.Size > 4096 {
 			set["in-flight-response>4KiB"] = true
